@@ -60,6 +60,12 @@ claimed["C08"]=dict(
    text="For every password, salt, parameter string and PA-DATA sequence the six string-to-key functions equal the RFC 3961/3962/8009/4757 compositions, the RFC 8009 KDF and derive-key functions equal their definitions, GetKeyFromPassword applies the RFC 4120 5.2.7.5 precedence of PA-ETYPE-INFO2 independent of element order, and generated keys have the etype's number and protocol key length. The wrong generated key length for etype 20 is an open known finding, so the evidence level is 'other' until it is repaired. n-fold is covered by a bounded comparison with an independent implementation only.",
    note="Trusted: uninterpreted PBKDF2/HMAC/hash/hex/UTF-16/n-fold, trusted contracts on Nfold, DES3RandomToKey content and the DR loop, ASN.1 decoders of the PA-DATA.",
    design="4/C08")
+claimed["C11"]=dict(
+   technique="contract-based deductive verification with a lock-invariant rule: the client's shared maps and session fields are declared guarded by their mutex, havocked at each acquisition, and every access generates a lockset obligation; atlock-relative postconditions for the atomic (ticket, key) reads; quantified set-level permutation contract with loop invariants for randServOrder; discharged by z3/cvc5 via gowp",
+   category="proof",
+   text="In the lock-invariant model every access to the ticket cache, the session table and a session's mutable fields is proved to hold the right mutex, (ticket, session key) pairs are proved to be read in one critical section, randServOrder is proved to return exactly the configured servers under keys 1..n without touching the configuration. Channel-based code, unguarded state and cross-mutex deadlocks are listed as not decided.",
+   note="Trusted: the lock-invariant abstraction of concurrency; unpublished-object initialisation; channels outside the subset; math/rand.Intn returns 0 <= r < n.",
+   design="4/C11")
 hooks=subprocess.run("git -C /repo log --format='%H %s' | grep ' verif:' | awk '{print $1}'",shell=True,capture_output=True,text=True).stdout.split()
 m={"version":1,
  "setup_cmd":"./setup.sh",
